@@ -23,7 +23,10 @@ const Rule = "cases = little programs over named automata drawn from VERIF_SEED:
 	"on ALL words of length <= k (k=5: 63 words) against the oracle language, Minimize against a table-filling " +
 	"minimal state count, CombineDFA's final map word by word; non-trivial = some op consumed an automaton with " +
 	"an eps-move, an accepting start state, a start state with an incoming edge, an unreachable or a dead " +
-	"state, or Minimize merged states, or a renaming was not the identity; distinct = distinct (header, op list)"
+	"state, or Minimize merged states, or a renaming was not the identity, or it is an aliasing case (operands are " +
+	"mutated with Add after an operation and the earlier results re-checked on all words and re-dumped, then the " +
+	"results are mutated and the operands re-checked); alphabets with gaps ({a,c}, {b,x}, {1,b}), mostly partial " +
+	"DFAs, state ids mostly with gaps; distinct = distinct (header, op list)"
 
 // ---------------------------------------------------------------- words and languages
 
@@ -954,6 +957,10 @@ func Exec(c hx.Case) hx.Result {
 		}
 		res.Outs = append(res.Outs, out)
 	}
+	if hx.HeaderGet(c.Header, "alias") != "" {
+		tags["aliasing-case"] = true
+		nontrivial = true
+	}
 	res.Nontrivial = nontrivial
 	for t := range tags {
 		res.Tags = append(res.Tags, t)
@@ -977,7 +984,7 @@ func joinInts(xs []int) string {
 
 // ids draws n distinct state ids from a non-contiguous range
 func ids(r *hx.Rand, n int) []int {
-	switch r.Intn(4) {
+	switch r.Intn(6) {
 	case 0: // 0..n-1
 		xs := make([]int, n)
 		for i := range xs {
@@ -1006,7 +1013,7 @@ func ids(r *hx.Rand, n int) []int {
 }
 
 // genNFA emits the ops that build a random NFA named x
-func genNFA(r *hx.Rand, x string, maxStates int) []string {
+func genNFA(r *hx.Rand, x string, maxStates int, sigma []int) []string {
 	n := r.Range(1, maxStates)
 	st := ids(r, n)
 	var fin []int
@@ -1021,9 +1028,9 @@ func genNFA(r *hx.Rand, x string, maxStates int) []string {
 	ops := []string{fmt.Sprintf("nfa %s %d %s", x, st[0], joinInts(fin))}
 	edges := r.Range(0, 2*n+1)
 	for e := 0; e < edges; e++ {
-		a := []int{97, 98, 0}[r.Intn(3)]
+		a := []int{sigma[0], sigma[1], 0}[r.Intn(3)]
 		if r.Chance(1, 2) {
-			a = []int{97, 98}[r.Intn(2)]
+			a = sigma[r.Intn(2)]
 		}
 		k := 1
 		if r.Chance(1, 4) {
@@ -1042,7 +1049,7 @@ func genNFA(r *hx.Rand, x string, maxStates int) []string {
 }
 
 // genDFA emits the ops that build a random (partial) DFA named x
-func genDFA(r *hx.Rand, x string, maxStates int) []string {
+func genDFA(r *hx.Rand, x string, maxStates int, sigma []int) []string {
 	n := r.Range(1, maxStates)
 	st := ids(r, n)
 	var fin []int
@@ -1055,10 +1062,11 @@ func genDFA(r *hx.Rand, x string, maxStates int) []string {
 		fin = append(fin, hx.Pick(r, st))
 	}
 	ops := []string{fmt.Sprintf("dfa %s %d %s", x, st[0], joinInts(fin))}
-	total := r.Chance(1, 2)
+	total := r.Chance(1, 4) // mostly partial DFAs
+	density := r.Range(1, 3)
 	for _, s := range st {
-		for _, a := range []int{97, 98} {
-			if total || r.Chance(2, 3) {
+		for _, a := range sigma {
+			if total || r.Chance(density, 4) {
 				ops = append(ops, fmt.Sprintf("dadd %s %d %d %d", x, s, a, hx.Pick(r, st)))
 			}
 		}
@@ -1140,21 +1148,40 @@ func statesOfOps(ops []string) []int {
 	return out
 }
 
+// an edge over the states the building ops of an automaton mention (used to scribble on operands/results)
+func scribble(r *hx.Rand, x string, st []int, sigma []int, dfa bool) string {
+	s, t := 0, 1
+	if len(st) > 0 {
+		s, t = hx.Pick(r, st), hx.Pick(r, st)
+	}
+	if dfa {
+		return fmt.Sprintf("dadd %s %d %d %d", x, s, hx.Pick(r, sigma), t)
+	}
+	a := hx.Pick(r, sigma)
+	if r.Chance(1, 4) {
+		a = 0
+	}
+	return fmt.Sprintf("add %s %d %d %d", x, s, a, t)
+}
+
 func genCase(r *hx.Rand) hx.Case {
 	var ops []string
 	maxN := 4
 	if r.Chance(1, 3) {
 		maxN = 5
 	}
-	switch r.Intn(5) {
+	// the alphabet: contiguous or with gaps (the words of `acc` are over exactly these symbols)
+	sigma := [][]int{{97, 98}, {97, 99}, {98, 120}, {1, 98}}[r.Intn(4)]
+	kind := r.Intn(7)
+	switch kind {
 	case 0, 1: // NFA pipeline
-		a := genNFA(r, "A", maxN)
-		b := genNFA(r, "B", maxN)
+		a := genNFA(r, "A", maxN, sigma)
+		b := genNFA(r, "B", maxN, sigma)
 		ops = append(ops, a...)
 		ops = append(ops, b...)
 		ops = append(ops, "acc A", "star S A", "union U A B", "concat C A B", "concat C2 B A")
 		if r.Chance(1, 2) {
-			ops = append(ops, genNFA(r, "Z", 3)...)
+			ops = append(ops, genNFA(r, "Z", 3, sigma)...)
 			ops = append(ops, "union U3 A B Z", "concat C3 A Z B", "concat C4 Z A")
 		}
 		if r.Chance(1, 2) {
@@ -1163,23 +1190,54 @@ func genCase(r *hx.Rand) hx.Case {
 		ops = append(ops, "todfa D A", "todfa DC C", "min M DC", "elim L DC", "reidx R L", "min M2 R")
 		ops = append(ops, "clone K A", "equal K A", "rename Q A "+renaming(r, statesOfOps(a)), "iso A Q", "iso Q A", "iso A B")
 	case 2: // DFA pipeline
-		a := genDFA(r, "A", maxN)
-		b := genDFA(r, "B", maxN)
+		a := genDFA(r, "A", maxN, sigma)
+		b := genDFA(r, "B", maxN, sigma)
 		ops = append(ops, a...)
 		ops = append(ops, b...)
 		ops = append(ops, "acc A", "min M A", "elim L A", "reidx R A", "reidx RL L", "min ML RL", "tonfa N A", "todfa D N", "clone K A", "equal K A")
 		ops = append(ops, "combine X A B", "combine Y B A M", "combine W A")
 		ops = append(ops, "rename Q A "+renaming(r, statesOfOps(a)), "iso A Q", "iso Q A", "iso A B", "iso M ML")
 	case 3: // mixed: regular-expression-like nesting
-		ops = append(ops, genNFA(r, "A", 3)...)
-		ops = append(ops, genNFA(r, "B", 3)...)
-		ops = append(ops, genNFA(r, "Z", 3)...)
+		ops = append(ops, genNFA(r, "A", 3, sigma)...)
+		ops = append(ops, genNFA(r, "B", 3, sigma)...)
+		ops = append(ops, genNFA(r, "Z", 3, sigma)...)
 		ops = append(ops, "star S A", "concat C S B", "union U C Z", "star T U", "concat V T A", "todfa D V", "elim L D", "reidx R L", "min M R", "tonfa N M", "star W N")
-	default: // Minimize on DFAs produced by the subset construction (no unreachable states), cleaned first
-		ops = append(ops, genNFA(r, "A", maxN)...)
+	case 4: // Minimize on DFAs produced by the subset construction (no unreachable states), cleaned first
+		ops = append(ops, genNFA(r, "A", maxN, sigma)...)
 		ops = append(ops, "todfa D A", "elim L D", "reidx R L", "min M R", "min MM M", "iso M MM", "combine X R M", "tonfa N R", "star S N", "todfa DS S", "min MS DS")
+	case 5: // aliasing, NFA side: scribble on the operands after an operation, then on the results
+		a := genNFA(r, "A", maxN, sigma)
+		b := genNFA(r, "B", maxN, sigma)
+		sa, sb := statesOfOps(a), statesOfOps(b)
+		ops = append(ops, a...)
+		ops = append(ops, b...)
+		ops = append(ops, "union U A B", "concat C A B", "star S A", "todfa D A", "clone K A")
+		ops = append(ops, scribble(r, "A", sa, sigma, false), scribble(r, "B", sb, sigma, false), scribble(r, "A", sa, sigma, false))
+		ops = append(ops, "acc U", "acc C", "acc S", "acc D", "acc K", "dump U", "dump C", "dump S", "dump D", "dump K")
+		// now the other way round: scribble on the results, the operands must not move
+		ops = append(ops, "union U A B", "concat C A B", "star S A", "todfa D A", "clone K A", "tonfa N D")
+		ops = append(ops, scribble(r, "U", []int{0, 1, 2, 3}, sigma, false), scribble(r, "C", []int{0, 1, 2}, sigma, false),
+			scribble(r, "S", []int{0, 1, 2}, sigma, false), scribble(r, "D", []int{0, 1}, sigma, true),
+			scribble(r, "K", sa, sigma, false), scribble(r, "N", []int{0, 1}, sigma, false))
+		ops = append(ops, "acc A", "acc B", "dump A", "dump B", "acc D", "dump D", "equal K A")
+	default: // aliasing, DFA side
+		a := genDFA(r, "A", maxN, sigma)
+		b := genDFA(r, "B", maxN, sigma)
+		sa, sb := statesOfOps(a), statesOfOps(b)
+		ops = append(ops, a...)
+		ops = append(ops, b...)
+		ops = append(ops, "min M A", "elim L A", "reidx R A", "clone K A", "tonfa N A", "combine X A B")
+		ops = append(ops, scribble(r, "A", sa, sigma, true), scribble(r, "B", sb, sigma, true), scribble(r, "A", sa, sigma, true))
+		ops = append(ops, "acc M", "acc L", "acc R", "acc K", "acc N", "acc X", "dump M", "dump L", "dump R", "dump K", "dump N", "dump X")
+		ops = append(ops, "min M A", "elim L A", "reidx R A", "clone K A", "tonfa N A", "combine X A B")
+		ops = append(ops, scribble(r, "M", []int{0, 1}, sigma, true), scribble(r, "L", sa, sigma, true), scribble(r, "R", []int{0, 1}, sigma, true),
+			scribble(r, "K", sa, sigma, true), scribble(r, "N", sa, sigma, false), scribble(r, "X", []int{0, 1, 2}, sigma, true))
+		ops = append(ops, "acc A", "acc B", "dump A", "dump B", "min M2 A", "equal K A")
 	}
-	return hx.Case{Header: "comp=automata k=5", Ops: ops}
+	if kind >= 5 {
+		return hx.Case{Header: fmt.Sprintf("comp=automata k=4 sig=%s alias=1", joinInts(sigma)), Ops: ops}
+	}
+	return hx.Case{Header: fmt.Sprintf("comp=automata k=5 sig=%s", joinInts(sigma)), Ops: ops}
 }
 
 // exhaustive2 enumerates every NFA with states {p,q} over {a,b,eps}
